@@ -102,4 +102,83 @@ def step : List String → String
     | _, _, _, _ => "bad-op"
   | _ => "bad-op"
 
-def main : IO Unit := runDriver step
+
+def fmtCall (c : GenCall) : String :=
+  c.method ++ "|" ++ "|".intercalate (c.args.map fmtVec) ++ s!"|{c.size.1} {c.size.2}"
+
+def ev (e : RExpr) : String := RExpr.evalStr [] e
+def cq (q : Rat) : RExpr := RExpr.const q
+
+def plumbOut (fam : Family) (params : List (List Rat)) (N dim : Nat) (G : Mat) : String :=
+  if !(params.all (fun v => v.length == 1 || v.length == dim)) then "err-shape" else
+  if !(rectangular G N dim) then "err-shape" else
+  match plumb fam params dim N with
+  | some c =>
+    let dens := match densityTuple fam params with
+      | some t => "|".intercalate (t.map fmtVec)
+      | none => "-"
+    fmtCall c ++ " " ++ dens ++ " " ++ fmtMat (iidDraws G dim)
+  | none => "err"
+
+def step2 : List String → Option String
+  | ["plumb", fam, N, dim, p1, p2, G] =>
+    match Family.ofString fam, N.toNat?, dim.toNat?, parseVec p1, parseVec p2, parseMat G with
+    | some fam, some N, some dim, some p1, some p2, some G => some (plumbOut fam [p1, p2] N dim G)
+    | _, _, _, _, _, _ => some "bad-op"
+  | ["plumb", fam, N, dim, p1, p2, p3, G] =>
+    match Family.ofString fam, N.toNat?, dim.toNat?, parseVec p1, parseVec p2, parseVec p3, parseMat G with
+    | some fam, some N, some dim, some p1, some p2, some p3, some G => some (plumbOut fam [p1, p2, p3] N dim G)
+    | _, _, _, _, _, _, _ => some "bad-op"
+  -- closed-form log-densities (one component), as floats
+  | ["dens", fam, x, p1, p2] =>
+    match parseRat x, parseRat p1, parseRat p2 with
+    | some x, some p1, some p2 =>
+      match fam with
+      | "normal" => some (ev (normalLogpdf (cq x) (cq p1) (cq p2)))
+      | "laplace" => some (ev (laplaceLogpdf (cq x) (cq p1) (cq p2)))
+      | "uniform" => some (if x < p1 || x > p2 then "-inf" else ev (uniformLogpdf (cq p1) (cq p2)))
+      | "cauchy" => some (ev (cauchyLogpdf (cq x) (cq p1) (cq p2)))
+      | "gauss1" => some (ev (gauss1Logpdf (cq x) (cq p1) (cq p2)))
+      | _ => some "bad-op"
+    | _, _, _ => some "bad-op"
+  -- MHN: what the getters hand to `_MHN_sample`
+  | ["mhnread", a, b, c] =>
+    match parseRat a, parseRat b, parseRat c with
+    | some a, some b, some c => let r := mhnRead a b c; some (fmtVec [r.1, r.2.1, r.2.2])
+    | _, _, _ => some "bad-op"
+  -- MHN scheme and proposal parameters for `_MHN_sample(alpha, beta, gamma)`
+  | ["mhn", a, b, c] =>
+    match parseRat a, parseRat b, parseRat c with
+    | some a, some b, some c =>
+      let (α, β, γ) := (cq a, cq b, cq c)
+      match mhnScheme a b c with
+      | .negGamma =>
+        if c > 0 then some "err" else
+        let m := if a ≤ 1 then cq 1 else Mhn.mode α β γ
+        some ("ng " ++ ev m ++ " " ++ ev (α * Mhn.ngVal1 β γ m) ++ " " ++ ev (1 / Mhn.ngVal2 β γ m))
+      | .posGamma1 =>
+        some ("pg1 " ++ ev (Mhn.K1 α β γ) ++ " " ++ ev (Mhn.K2 α β γ) ++ " " ++ ev (Mhn.npLoc α β γ) ++ " " ++ ev (Mhn.npScale β)
+              ++ " " ++ ev (Mhn.gpShape α) ++ " " ++ ev (Mhn.gpScale α β γ))
+      | .gammaProposal => some ("gp " ++ ev (Mhn.gpShape α) ++ " " ++ ev (Mhn.gpScale α β γ))
+    | _, _, _ => some "bad-op"
+  -- one loop iteration: point X and log-acceptance bound for a given draw
+  | ["mhnacc", kind, a, b, c, m, t] =>
+    match parseRat a, parseRat b, parseRat c, parseRat m, parseRat t with
+    | some a, some b, some c, some m, some t =>
+      let (α, β, γ) := (cq a, cq b, cq c)
+      match kind with
+      | "gp" => some (ev (Mhn.gpX (cq t)) ++ " " ++ ev (Mhn.gpAccept α β γ (cq t)))
+      | "np" => some (ev (cq t) ++ " " ++ ev (Mhn.npAccept α β γ (cq t)))
+      | "ng" => some (ev (Mhn.ngX β γ (cq m) (cq t)) ++ " " ++ ev (Mhn.ngAccept β γ (cq m) (cq t)))
+      | "ngmode" => let mm := Mhn.mode α β γ
+                    some (ev (Mhn.ngX β γ mm (cq t)) ++ " " ++ ev (Mhn.ngAccept β γ mm (cq t)))
+      | _ => some "bad-op"
+    | _, _, _, _, _ => some "bad-op"
+  | _ => none
+
+def stepAll (toks : List String) : String :=
+  match step2 toks with
+  | some r => r
+  | none => step toks
+
+def main : IO Unit := runDriver stepAll
